@@ -85,7 +85,9 @@ func c03Specs(tier string, seed int) []c03Spec {
 		c03Spec{Kind: "seq", Batch: []string{"C", "Cu"}}, c03Spec{Kind: "seq", Batch: []string{"Cu", "C"}}, c03Spec{Kind: "seq", Batch: []string{"Cu", "A", "C"}})
 	// a successful run that writes to the log channel while the other slots are busy
 	out = append(out, c03Spec{Kind: "e3", Batch: []string{"Cv", "A", "B"}, Conc: 2, Bound: bound, Days: 2}, c03Spec{Kind: "e3", Batch: []string{"A", "Cv", "B", "C"}, Conc: 2, Bound: b4, Days: 2},
-		c03Spec{Kind: "seq", Batch: []string{"Cv", "A", "Cv"}})
+		c03Spec{Kind: "seq", Batch: []string{"Cv", "A", "Cv"}},
+		// a project with a partial management-event configuration before and after projects with the full one
+		c03Spec{Kind: "seq", Batch: []string{"Cm", "C", "Cm"}}, c03Spec{Kind: "seq", Batch: []string{"A", "Cm"}})
 	if tier == "thorough" { // (the reader reports every repaired day through the log channel: many scheduling points)
 		out = append(out, c03Spec{Kind: "e3", Batch: []string{"Cw", "Cw2"}, Conc: 2, Bound: 1, Days: 1}, c03Spec{Kind: "e3", Batch: []string{"Cw", "C", "Cw2"}, Conc: 2, Bound: 1, Days: 1})
 	}
